@@ -327,6 +327,25 @@ CHECKS['C20'] = ('DESIGN.md#C20',
     'inconclusive. Known findings F30 (fix_pa rotated by 90 deg when eps '
     'crosses 0) and F31 (model PA wrap) excluded by signature.')
 
+CHECKS['C03'] = ('DESIGN.md#C03',
+    'Metamorphic relations on Hypothesis-generated scenes: embedding at a '
+    'generated integer offset in a zero-padded canvas (translation) and '
+    'axis transposition, outputs paired by position, across aperture '
+    'photometry/statistics, find_peaks, the three star finders, '
+    'detect/deblend, SourceCatalog, profiles, model rendering and the '
+    'centroid functions',
+    'Generated-input search: every position, index and bounding box shifts '
+    'by exactly (dx,dy) and every flux, area, shape parameter and statistic '
+    'is unchanged (rel 1e-9) for sources whose measurement footprint lies in '
+    'the original frame; the canvas segmentation is the embedded original; '
+    'transposing inputs swaps x/y quantities (orientation -> 90 deg - theta) '
+    'for aperture photometry/statistics, SourceCatalog (incl. '
+    'background_centroid on a non-symmetric background), profiles (incl. the '
+    'raw data profile on non-square frames) and the centroid functions. '
+    'Held on N cases; not a proof.',
+    'No numeric oracle: the untranslated / untransposed evaluation is the '
+    'reference (decided by C02/C07/C14/C16/C17/C19).')
+
 NOT_APPLICABLE = []
 
 
